@@ -198,7 +198,17 @@ class Sym:
                     v = None
                     if s2.throw is None and sig and sig[0] == 'return':
                         v = sig[1]
+                    # a scalar handed in by non-const reference and assigned by the callee: the new value goes back to the
+                    # caller's variable (ev_call stores it)
+                    changed = {}
+                    for i in range(min(len(args), len(params))):
+                        t = params[i].get('t', '')
+                        if t.rstrip().endswith('&') and not t.rstrip().endswith('&&') and not t.startswith('const ') \
+                                and s2.env.get(('p', i)) != args[i] and not (isinstance(args[i], tuple) and args[i] and args[i][0] == 'obj'):
+                            changed[i] = s2.env.get(('p', i))
                     s2.envs.pop()
+                    if changed:
+                        s2.out_params = changed
                     outs.append((s2, v))
             if len(outs) > self.max_paths:
                 raise Unsupported(f'too many paths in {f["id"]}')
@@ -789,6 +799,9 @@ class Sym:
                 return False
         if a[0] == 'obj' and b[0] == 'obj':
             return a[1] == b[1]
+        if a[0] == 'addr' and b[0] == 'addr' and isinstance(a[1], tuple) and isinstance(b[1], tuple) and a[1][:1] == ('index',) and b[1][:1] == ('index',) \
+                and a[1][1] == b[1][1] and a[1][2][0] == 'k' and b[1][2][0] == 'k':
+            return a[1][2][1] == b[1][2][1]
         # an object constructed during this evaluation is distinct from anything that existed before it
         for x, y in ((a, b), (b, a)):
             if x[0] == 'obj' and x[1] in st.heap and st.heap[x[1]].origin and st.heap[x[1]].origin[0] in ('emplace', 'tree', 'new') \
@@ -1090,11 +1103,20 @@ class Sym:
                 if eq is not None:
                     out.append((s, ('k', int(eq if op == '==' else not eq), 'bool')))
                     continue
+            if op == '-' and a[0] == 'addr' and b[0] == 'addr':
+                d = self.arith('-', a, b)
+                if d[0] == 'k':
+                    out.append((s, d))
+                    continue
             out.append((s, ('op', op, a, b)))
         return out
 
     def arith(self, op, a, b):
         """a op b with constant folding and flattening of (x + c1) + c2."""
+        # difference of the addresses of two elements of one array
+        if op == '-' and a[0] == 'addr' and b[0] == 'addr' and isinstance(a[1], tuple) and isinstance(b[1], tuple) \
+                and a[1][:1] == ('index',) and b[1][:1] == ('index',) and a[1][1] == b[1][1] and a[1][2][0] == 'k' and b[1][2][0] == 'k':
+            return ('k', a[1][2][1] - b[1][2][1], 'int')
         if a[0] == 'k' and b[0] == 'k' and isinstance(a[1], int) and isinstance(b[1], int):
             r = {'+': a[1] + b[1], '-': a[1] - b[1], '*': a[1] * b[1], '|': a[1] | b[1], '&': a[1] & b[1], '^': a[1] ^ b[1]}.get(op)
             if r is not None:
@@ -1108,6 +1130,65 @@ class Sym:
                 return base
             return ('op', '+', base, ('k', c, 'int'))
         return ('op', op, a, b)
+
+    def array_find(self, args, st):
+        """std::find(first, last, value) over [&a[i], &a[n]) of an array a: one outcome per position (the first element equal
+        to the value is the one at k) and one for `none is`; equality is the element type's own operator== when it has one."""
+        first, last, value = args
+
+        def pos(t):
+            if isinstance(t, tuple) and t[0] == 'addr' and isinstance(t[1], tuple) and t[1][0] == 'index' and t[1][2][0] == 'k':
+                return t[1][1], t[1][2][1]
+            return None
+        a, b = pos(first), pos(last)
+        if a is None or b is None or a[0] != b[0] or not (0 <= a[1] <= b[1] <= 64):
+            return None
+        arr = a[0]
+        outs = []
+        states = [st]
+        for k in range(a[1], b[1]):
+            elem = ('index', arr, ('k', k, 'int'))
+            nxt = []
+            for s0 in states:
+                for s1, c in self.equal_values(elem, value, s0):
+                    if s1.throw is not None:
+                        outs.append((s1, None))
+                        continue
+                    t = self.truth(c, s1)
+                    if t is True:
+                        outs.append((s1, ('addr', elem)))
+                    elif t is False:
+                        nxt.append(s1)
+                    else:
+                        s2 = s1.fork()
+                        s1.conds.append((c, True))
+                        outs.append((s1, ('addr', elem)))
+                        s2.conds.append((c, False))
+                        nxt.append(s2)
+            states = nxt
+            if len(outs) + len(states) > self.max_paths:
+                raise Unsupported('too many paths')
+        outs.extend((s0, last) for s0 in states)
+        return outs
+
+    def equal_values(self, x, y, st):
+        """x == y as the program would evaluate it: the class's own operator== (member or namespace-scope, from the repository)
+        when the values are of a class type that has one, the built-in comparison otherwise."""
+        tname = None
+        if isinstance(x, tuple) and x[0] == 'index':
+            base = x[1]
+            if isinstance(base, tuple) and base[0] == 'global':
+                for g in self.F.globals:
+                    if g['q'] == base[1]:
+                        tname = g['t'].replace('const ', '').split('[')[0].strip()
+            elif isinstance(base, tuple) and base[0] == 'param':
+                tname = None
+        if tname and tname in self.F.rec:
+            for fid in (f'{tname}::operator==(const {tname} &) const', f'{tname}::operator==({tname}) const'):
+                f = self.F.fn.get(fid)
+                if f is not None:
+                    return self.call_body(f, x, [y], st)
+        return [(st, self.simp(('op', '==', x, y)))]
 
     def variant_get(self, callee, var, st):
         """std::get<I>(v): the alternative when v.index() == I, std::bad_variant_access otherwise (decided from the path
@@ -1291,7 +1372,21 @@ class Sym:
                 if e.get('arrow'):
                     self.note_deref(s, recv, e)
                     recv = self.simp(('deref', recv))
-            out.extend(self.dispatch(e, callee, recv, args, s))
+            for s2, v in self.dispatch(e, callee, recv, args, s):
+                back = getattr(s2, 'out_params', None)
+                if not back:
+                    out.append((s2, v))
+                    continue
+                s2.out_params = None
+                states = [s2]
+                for i, nv in sorted(back.items()):
+                    if i < len(e.get('args', [])):
+                        lv = strip_casts(e['args'][i])
+                        if lv.get('k') in ('ref', 'member', 'index', 'unop'):
+                            states = [s4 for s3 in states for s4 in self.assign(s3, e['args'][i], nv)]
+                # the value of the call may be the reference parameter itself (`return a = a | b;`): it designates the
+                # caller's variable, whose value is now the new one
+                out.extend((s3, v) for s3 in states)
         return out
 
     def dyn_class(self, recv, st):
@@ -1571,6 +1666,16 @@ class Sym:
                     eq = True if a == b else self.same(a, b, st)
                     if eq is not None:
                         return [(st, ('k', int(eq if name == 'operator==' else not eq), 'bool'))]
+            if name in ('begin', 'end', 'cbegin', 'cend') and recv is None and len(args) == 1:
+                import re as _re
+                m = _re.search(r'\(&\)\[(\d+)\]\)\s*$', callee['id'])
+                if m:
+                    idx = 0 if name in ('begin', 'cbegin') else int(m.group(1))
+                    return [(st, ('addr', ('index', args[0], ('k', idx, 'int'))))]
+            if name == 'find' and recv is None and len(args) == 3 and callee['id'].startswith('std::find<'):
+                r = self.array_find(args, st)
+                if r is not None:
+                    return r
             if name in ('size', 'ssize') and recv is None and len(args) == 1:
                 import re as _re
                 m = _re.search(r'\(&\)\[(\d+)\]\)\s*$', callee['id'])
